@@ -1,6 +1,8 @@
 package values
 
 import (
+	"reflect"
+
 	yaml "gopkg.in/yaml.v2"
 )
 
@@ -12,10 +14,19 @@ type mapSliceValue struct {
 // func (v mapSliceValue) Equal(o Value) bool     { return v.slice == o.Interface() }
 func (v mapSliceValue) Interface() any { return v.slice }
 
+// isKey reports whether e is the key k. A value that == cannot compare (a slice, a map) is
+// not equal to any key: comparing it with a key of its own type would panic.
+func isKey(e, k any) bool {
+	if e != nil && !reflect.TypeOf(e).Comparable() {
+		return false
+	}
+	return e == k
+}
+
 func (v mapSliceValue) Contains(elem Value) bool {
 	e := elem.Interface()
 	for _, item := range v.slice {
-		if e == item.Key {
+		if isKey(e, item.Key) {
 			return true
 		}
 	}
@@ -25,7 +36,7 @@ func (v mapSliceValue) Contains(elem Value) bool {
 func (v mapSliceValue) IndexValue(index Value) Value {
 	e := index.Interface()
 	for _, item := range v.slice {
-		if e == item.Key {
+		if isKey(e, item.Key) {
 			return ValueOf(item.Value)
 		}
 	}
